@@ -1020,6 +1020,42 @@ func registerSpecBuiltins(x *Exec) {
 		}
 		return scalar(tInt, BVLit64(0, 64))
 	}
+	// floating point in specifications: the same uninterpreted functions the code's operations are mapped to
+	// fsub(a, b), fadd, fmul, fdiv; fofu(x) / fofi(x): float64 of an unsigned / signed integer; fconst("1"): a constant
+	for _, op := range []string{"add", "sub", "mul", "div"} {
+		op := op
+		x.specBuiltins["f"+op] = func(sc *specScope, n *ECall) Value {
+			a := x.evalSpec0(sc, n.Args[0], types.Typ[types.Float64])
+			b := x.evalSpec0(sc, n.Args[1], types.Typ[types.Float64])
+			x.c.declFun("fp."+op, []Sort{SBV(64), SBV(64)}, SBV(64))
+			return scalar(types.Typ[types.Float64], Apply("fp."+op, SBV(64), a.L[0], b.L[0]))
+		}
+	}
+	x.specBuiltins["fofu"] = func(sc *specScope, n *ECall) Value {
+		a := x.evalSpec0(sc, n.Args[0], types.Typ[types.Uint64])
+		t := a.L[0]
+		if t.S.W < 64 {
+			t = ZeroExt(t, 64)
+		}
+		x.c.declFun("fp.of_u64", []Sort{SBV(64)}, SBV(64))
+		return scalar(types.Typ[types.Float64], Apply("fp.of_u64", SBV(64), t))
+	}
+	x.specBuiltins["fofi"] = func(sc *specScope, n *ECall) Value {
+		a := x.evalSpec0(sc, n.Args[0], types.Typ[types.Int64])
+		t := a.L[0]
+		if t.S.W < 64 {
+			t = SignExt(t, 64)
+		}
+		x.c.declFun("fp.of_i64", []Sort{SBV(64)}, SBV(64))
+		return scalar(types.Typ[types.Float64], Apply("fp.of_i64", SBV(64), t))
+	}
+	x.specBuiltins["fconst"] = func(sc *specScope, n *ECall) Value {
+		lit, ok := n.Args[0].(*ELit)
+		if !ok {
+			unsup("spec: fconst needs a literal")
+		}
+		return scalar(types.Typ[types.Float64], x.c.Named("flt_"+sanitize(strings.Trim(lit.Text, "\"")), SBV(64)))
+	}
 	// bytesCompare(a, b): the value bytes.Compare(a, b) returns (a, b: byte slices or byte arrays)
 	x.specBuiltins["bytesCompare"] = func(sc *specScope, n *ECall) Value {
 		a := x.evalSpec0(sc, n.Args[0], nil)
